@@ -196,6 +196,61 @@ class FrameInterp(Interp):
                     return self.compare("Lt", Sym(1), add(lo0, 1))
                 return self.compare("Eq", lo0, hi0)
             raise Undecided("call of %s" % c)
+        m_ = bitsem.re.fullmatch(r"core::num::<impl u(8|16|32|64)>::to_(be|le)_bytes", c)
+        if m_:
+            # the integer as an array of its bytes (checksum trailer compared bytewise)
+            args = [self.operand(st, a) for a in t["args"]]
+            w = int(m_.group(1))
+            bv = self.as_bv(args[0], w)
+            bytes_ = [BV(list(bv.bits[8 * k:8 * k + 8]), False) for k in range(w // 8)]
+            return list(reversed(bytes_)) if m_.group(2) == "be" else bytes_
+        if c in ("core::array::<impl core::ops::Index<I> for [T; N]>::index",):
+            args = [self.operand(st, a) for a in t["args"]]
+            arr = self._get(st, args[0].loc) if isinstance(args[0], Ref) else None
+            rg = args[1]
+            if not isinstance(arr, list) or not (isinstance(rg, Adt) and (rg.path or "").startswith("core::ops::Range")):
+                raise Undecided("index of something that is not a local byte array by a range")
+            nm = rg.path.rsplit("::", 1)[-1]
+            cs = [lin_parts(self.to_int(x)) for x in rg.fields]
+            if any(x is None or x[0] != 0 for x in cs):
+                raise Undecided("sub-slice of a local array with a symbolic bound")
+            cs = [x[1] for x in cs]
+            if nm == "RangeFrom":
+                lo, hi = cs[0], len(arr)
+            elif nm == "RangeTo":
+                lo, hi = 0, cs[0]
+            elif nm == "Range":
+                lo, hi = cs[0], cs[1]
+            elif nm == "RangeFull":
+                lo, hi = 0, len(arr)
+            else:
+                raise Undecided("range kind " + nm)
+            if not (0 <= lo <= hi <= len(arr)):
+                raise Panic("sub-slice of a local array out of range")
+            return Ref(("vals", tuple(arr[lo:hi])))
+        if c.endswith("PartialEq::ne") or c.endswith("PartialEq::eq") or bitsem.re.fullmatch(r"core::slice::cmp::<impl core::cmp::PartialEq<\[U\]> for \[T\]>::(eq|ne)", c):
+            args = [self.operand(st, a) for a in t["args"]]
+            sides = []
+            for a in args:
+                if isinstance(a, Ref) and a.loc[0] == "vals":
+                    sides.append(list(a.loc[1]))
+                elif isinstance(a, Ref) and a.loc[0] == "slice" and a.loc[2] is not None:
+                    n = lin_parts(sub(a.loc[2], a.loc[1]))
+                    if n is None or n[0] != 0 or not (0 <= n[1] <= 8):
+                        raise Undecided("comparison of an input sub-slice of symbolic length")
+                    sides.append([self.read_byte(st, add(a.loc[1], k)) for k in range(n[1])])
+                else:
+                    raise Undecided("call of %s on unmodelled operands" % c)
+            neg = c.endswith("::ne")
+            if len(sides[0]) != len(sides[1]):
+                return 1 if neg else 0
+            if not sides[0]:
+                return 0 if neg else 1
+            lhs, rhs = [], []
+            for x, y in zip(reversed(sides[0]), reversed(sides[1])):     # slices compare bytewise: first byte = most significant
+                lhs.extend(self.as_bv(x, 8).bits)
+                rhs.extend(self.as_bv(y, 8).bits)
+            return BPred(BV(lhs, False), BV(rhs, False), neg)
         if bitsem.re.fullmatch(r"core::num::<impl u(8|16|32|64|size)>::from_be_bytes", c):
             args = [self.operand(st, a) for a in t["args"]]
             arr = args[0]
@@ -392,7 +447,7 @@ def crc_fact(st):
             if any(isinstance(b, tuple) and b[0][0][0] == "CRC" for b in x if isinstance(b, tuple)):
                 probs = []
                 key = None
-                for i in range(max(len(x), len(y))):
+                for i in range(max(24, len(x), len(y))):
                     xb = x[i] if i < len(x) else 0
                     yb = y[i] if i < len(y) else 0
                     if i < 24:
@@ -523,6 +578,16 @@ def check(prog, field_names):
                 if not (isinstance(da, Ref) and da.loc[0] == "slice" and lin_parts(da.loc[1]) == (0, 3) and da.loc[2] is not None and lin_parts(da.loc[2]) == (1, 3)):
                     prob("out", "data field is %s, expected input[3 .. L+3]" % (getattr(da, "loc", da),))
                 cr = vals.get("crc")
+                if isinstance(cr, BV) and truth:
+                    # on this path the checksum comparison held: a computed checksum bit stands for the input bit it was found equal to
+                    eqv = {}
+                    for l, r, tr in fin.bfacts:
+                        if tr:
+                            for x, y in zip(l, r):
+                                for u, v in ((x, y), (y, x)):
+                                    if isinstance(u, tuple) and u[0] == (u[0][0],) and u[0][0][0] == "CRC" and u[1] == 0b10:
+                                        eqv[u] = v
+                    cr = BV([eqv.get(b, b) if isinstance(b, tuple) else b for b in cr.bits], cr.signed if hasattr(cr, "signed") else False)
                 want = []
                 for i in range(24):
                     want.append(bf_atom(("D", 1, 5 - i // 8, i % 8)))
